@@ -33,38 +33,8 @@ func (c *Ctx) RuleTemplate(scope map[string]bool) *Result {
 			if scope != nil && !scope[load.FnName(fn)] {
 				return
 			}
-			res.Instances++
-			pname := "computed pattern"
-			if p, _ := c.Rx().Resolve(recv); p != nil {
-				pname = p.Name
-			}
-			key := fmt.Sprintf("%s:replacement template for %s", load.FnName(fn), pname)
-			pos := c.P.InstrPos(call)
-			tmpl := call.Call.Args[2]
-			if m == "Expand" || m == "ExpandString" {
-				tmpl = call.Call.Args[2]
-			}
-			var problems []string
-			for _, op := range stringOperands(stripConv(tmpl), 0) {
-				if _, isC := constString(op); isC {
-					continue
-				}
-				lang, what, why := c.valueLanguage(op, fn, 0)
-				if lang == nil {
-					problems = append(problems, fmt.Sprintf("a value of unknown content (%s) is part of the replacement template: a '$' followed by a name, digit or '{' in it is expanded as a group reference instead of being written literally (use string concatenation of the submatches or ReplaceAllLiteral)", why))
-					continue
-				}
-				r, err := rx.Intersects(lang, dollar)
-				if err != nil {
-					problems = append(problems, err.Error())
-				} else if r.Found {
-					problems = append(problems, fmt.Sprintf("%s may contain '$' (e.g. %q), which the template expands", what, r.Witness))
-				}
-			}
-			if len(problems) > 0 {
-				res.bad(key, pos, strings.Join(uniq(problems), "; "))
-			} else {
-				res.ok(key, pos, "every non-constant part of the template has a '$'-free language")
+			for _, row := range expandTable(recv, call.Call.Args[2]) {
+				c.templateOne(res, fn, call, m, row[0], row[1], dollar)
 			}
 		})
 	}
@@ -99,86 +69,81 @@ func (c *Ctx) RuleFsAlways(commands []string) *Result {
 				res.ok(key, pos, "the function reports failure by ending the process; every normal return follows the write")
 				continue
 			}
-			pathV := ws.cc.Args[ws.prim.pathArg]
-			data := stripConv(ws.cc.Args[ws.prim.dataArg])
-			var read *ssa.Call
-			allInstrs(ws.fn, func(in ssa.Instruction) {
-				call, ok := in.(*ssa.Call)
-				if !ok {
-					return
-				}
-				f := staticCallee(&call.Call)
-				if (isFn(f, "os", "ReadFile") || isFn(f, "os", "Open")) && call.Call.Args[0] == pathV && instrDominates(call, ws.call) && read == nil {
-					read = call
-				}
-			})
-			if read == nil {
-				res.undecided(key, pos, "no read of the written path dominates the write")
-				continue
-			}
-			skipEdge := func(cond ssa.Value, val bool) bool {
-				if vals[cond] && val {
-					return true // check mode
-				}
-				if call, ok := cond.(*ssa.Call); ok && val && isFn(staticCallee(&call.Call), "bytes", "Equal") {
-					a, b := stripConv(call.Call.Args[0]), stripConv(call.Call.Args[1])
-					if a == data || b == data {
-						return true // nothing to change
-					}
-				}
-				return false
-			}
 			bad := ""
-			seen := map[*ssa.BasicBlock]bool{}
-			type item struct {
-				b   *ssa.BasicBlock
-				idx int
-			}
-			stack := []item{{read.Block(), instrIndex(read) + 1}}
-			for len(stack) > 0 && bad == "" {
-				it := stack[len(stack)-1]
-				stack = stack[:len(stack)-1]
-				if it.idx == 0 {
-					if seen[it.b] {
-						continue
-					}
-					seen[it.b] = true
+			for _, w := range c.writeContexts(ws) {
+				data := stripConv(w.dataV)
+				read := dominatingRead(w.fn, w.pathV, w.site)
+				if read == nil {
+					bad = "no read of the written path dominates the write (looked in " + load.FnName(w.fn) + ")"
+					break
 				}
-				stop := false
-				for i := it.idx; i < len(it.b.Instrs); i++ {
-					in := it.b.Instrs[i]
-					if in == ws.call || lm.IsLoud(in) {
-						stop = true
-						break
+				if w.helper != nil && !c.helperWritesOrFails(w.helper, ws.call, flagValuesIn(vals, w.helper)) {
+					bad = fmt.Sprintf("the helper %s can return success without writing although check mode is off", load.FnName(w.helper))
+					break
+				}
+				skipEdge := func(cond ssa.Value, val bool) bool {
+					if vals[cond] && val {
+						return true // check mode
 					}
-					if r, ok := in.(*ssa.Return); ok {
-						env := newEnvAt(it.b)
-						if op := retErrOperand(r); op != nil && env.nilnessOf(op) != nonNil {
-							// a phi of the error: resolve through the block's incoming facts is not possible here; accept only provably non-nil
-							if !errOperandAlwaysNonNil(op) {
-								bad = fmt.Sprintf("after reading the file the function can return success at %s without writing it, although the contents were not found equal and check mode is off: the file keeps its old contents and the command reports success", c.P.InstrPos(r))
-							}
+					if call, ok := cond.(*ssa.Call); ok && val && isFn(staticCallee(&call.Call), "bytes", "Equal") {
+						a, b := stripConv(call.Call.Args[0]), stripConv(call.Call.Args[1])
+						if a == data || b == data {
+							return true // nothing to change
 						}
-						stop = true
-						break
 					}
+					return false
 				}
-				if stop {
-					continue
+				seen := map[*ssa.BasicBlock]bool{}
+				type item struct {
+					b   *ssa.BasicBlock
+					idx int
 				}
-				iff, isIf := it.b.Instrs[len(it.b.Instrs)-1].(*ssa.If)
-				for si, sc := range it.b.Succs {
-					if isIf && it.b.Succs[0] != it.b.Succs[1] {
-						cond, neg := unwrapNot(iff.Cond)
-						val := si == 0
-						if neg {
-							val = !val
-						}
-						if skipEdge(cond, val) {
+				stack := []item{{read.Block(), instrIndex(read) + 1}}
+				for len(stack) > 0 && bad == "" {
+					it := stack[len(stack)-1]
+					stack = stack[:len(stack)-1]
+					if it.idx == 0 {
+						if seen[it.b] {
 							continue
 						}
+						seen[it.b] = true
 					}
-					stack = append(stack, item{sc, 0})
+					stop := false
+					for i := it.idx; i < len(it.b.Instrs); i++ {
+						in := it.b.Instrs[i]
+						if in == w.site || lm.IsLoud(in) {
+							stop = true
+							break
+						}
+						if r, ok := in.(*ssa.Return); ok {
+							env := newEnvAt(it.b)
+							if op := retErrOperand(r); op != nil && env.nilnessOf(op) != nonNil && !errOperandAlwaysNonNil(op) {
+								bad = fmt.Sprintf("after reading the file %s can return success at %s without writing it, although the contents were not found equal and check mode is off: the file keeps its old contents and the command reports success", load.FnName(w.fn), c.P.InstrPos(r))
+							}
+							stop = true
+							break
+						}
+					}
+					if stop {
+						continue
+					}
+					iff, isIf := it.b.Instrs[len(it.b.Instrs)-1].(*ssa.If)
+					for si, sc := range it.b.Succs {
+						if isIf && it.b.Succs[0] != it.b.Succs[1] {
+							cond, neg := unwrapNot(iff.Cond)
+							val := si == 0
+							if neg {
+								val = !val
+							}
+							if skipEdge(cond, val) {
+								continue
+							}
+						}
+						stack = append(stack, item{sc, 0})
+					}
+				}
+				if bad != "" {
+					break
 				}
 			}
 			if bad != "" {
@@ -429,34 +394,73 @@ func (c *Ctx) RuleSuffixOps() *Result {
 				entry := call.Call.Args[0]
 				want1, _ := rx.SearchPattern("directive or comment line", `^##!`)
 				want2, _ := rx.SearchPattern("blank line", `^\s*$`)
-				covered := false
 				why := "the suffix rewrite is not guarded by a pattern test of the line"
-				pred := func(cond ssa.Value, val bool) bool {
-					mc, m, recv, subj, ok := regexpCall(asInstr(cond))
-					if !ok || !(m == "MatchString" || m == "Match") || val {
+				mkPred := func(ent ssa.Value, covered *bool) func(cond ssa.Value, val bool) bool {
+					return func(cond ssa.Value, val bool) bool {
+						_, m, recv, subj, ok := regexpCall(asInstr(cond))
+						if !ok || !(m == "MatchString" || m == "Match") || val {
+							return false
+						}
+						if !sameEntry(subj, ent) {
+							return false
+						}
+						p, _ := c.Rx().Resolve(recv)
+						if p == nil {
+							why = "the skip pattern is not a constant"
+							return false
+						}
+						lang := searchLang(p)
+						for _, w := range []*rx.Lang{want1, want2} {
+							r, err := rx.NotIncluded(w, lang)
+							if err != nil || r.Found {
+								why = fmt.Sprintf("the skip pattern %s does not match every %s (e.g. %q): such lines get their endings rewritten like entries", p.Src, w.Name, r.Witness)
+								return false
+							}
+						}
+						*covered = true
+						return true
+					}
+				}
+				var guarded func(site ssa.Instruction, ent ssa.Value, depth int) bool
+				guarded = func(site ssa.Instruction, ent ssa.Value, depth int) bool {
+					cov := false
+					if c.guardedByEdges(site, mkPred(ent, &cov)) && cov {
+						return true
+					}
+					if depth >= 2 {
 						return false
 					}
-					_ = mc
-					if !sameEntry(subj, entry) {
+					// the line is a parameter: every caller must guard the call
+					f := site.Block().Parent()
+					pi := -1
+					cands := []ssa.Value{stripConv(ent)}
+					if ph, ok := cands[0].(*ssa.Phi); ok {
+						cands = append(cands, ph.Edges...)
+					}
+					for _, cv := range cands {
+						for i, p := range f.Params {
+							if stripConv(cv) == ssa.Value(p) {
+								pi = i
+							}
+						}
+					}
+					if pi < 0 {
 						return false
 					}
-					p, _ := c.Rx().Resolve(recv)
-					if p == nil {
-						why = "the skip pattern is not a constant"
-						return false
-					}
-					lang := searchLang(p)
-					for _, w := range []*rx.Lang{want1, want2} {
-						r, err := rx.NotIncluded(w, lang)
-						if err != nil || r.Found {
-							why = fmt.Sprintf("the skip pattern %s does not match every %s (e.g. %q): such lines get their endings rewritten like entries", p.Src, w.Name, r.Witness)
+					callers := 0
+					for _, e := range c.Graph().In[f] {
+						cc := callCommon(e.Site)
+						if cc == nil || staticFn(cc) != f || pi >= len(cc.Args) {
+							continue
+						}
+						callers++
+						if !guarded(e.Site, cc.Args[pi], depth+1) {
 							return false
 						}
 					}
-					covered = true
-					return true
+					return callers > 0
 				}
-				if c.guardedByEdges(call, pred) && covered {
+				if guarded(call, entry, 0) {
 					res.ok(key, c.P.InstrPos(call), "only reached when the line matches neither ^##! nor ^\\s*$ (language inclusion checked on the skip pattern)")
 				} else {
 					res.bad(key, c.P.InstrPos(call), why)
@@ -629,4 +633,39 @@ func (c *Ctx) RuleIdxParam() *Result {
 		}
 	}
 	return res
+}
+
+// templateOne judges one (pattern, template) pair of a replacement call.
+func (c *Ctx) templateOne(res *Result, fn *ssa.Function, call *ssa.Call, m string, recv ssa.Value, tmplV ssa.Value, dollar *rx.Lang) {
+			res.Instances++
+			pname := "computed pattern"
+			if p, _ := c.Rx().Resolve(recv); p != nil {
+				pname = p.Name
+			}
+			key := fmt.Sprintf("%s:replacement template for %s", load.FnName(fn), pname)
+			pos := c.P.InstrPos(call)
+			tmpl := tmplV
+			var problems []string
+			for _, op := range stringOperands(stripConv(tmpl), 0) {
+				if _, isC := constString(op); isC {
+					continue
+				}
+				lang, what, why := c.valueLanguage(op, fn, 0)
+				if lang == nil {
+					problems = append(problems, fmt.Sprintf("a value of unknown content (%s) is part of the replacement template: a '$' followed by a name, digit or '{' in it is expanded as a group reference instead of being written literally (use string concatenation of the submatches or ReplaceAllLiteral)", why))
+					continue
+				}
+				r, err := rx.Intersects(lang, dollar)
+				if err != nil {
+					problems = append(problems, err.Error())
+				} else if r.Found {
+					problems = append(problems, fmt.Sprintf("%s may contain '$' (e.g. %q), which the template expands", what, r.Witness))
+				}
+			}
+			if len(problems) > 0 {
+				res.bad(key, pos, strings.Join(uniq(problems), "; "))
+			} else {
+				res.ok(key, pos, "every non-constant part of the template has a '$'-free language")
+			}
+
 }
